@@ -127,13 +127,51 @@ type StackCase struct {
 	Unknown  bool     `json:"unknownLength,omitempty"`
 	// Undeclared: ContentLength is left 0 with a non-nil Body, which is what
 	// http.NewRequest produces for any reader it does not know (length unknown)
-	Undeclared bool `json:"undeclaredLength,omitempty"`
-	MaxRetry int      `json:"maxRetry"`
-	Layer    string   `json:"layer"` // auth+retry, retry, auth
+	Undeclared bool   `json:"undeclaredLength,omitempty"`
+	MaxRetry   int    `json:"maxRetry"`
+	Layer      string `json:"layer"` // auth+retry, retry, auth
 	// Warm: an earlier request already cached a bearer token for the scope the
 	// registry challenges with (so a 401 is first answered with the cached token,
 	// and only then with a freshly fetched one: three sends)
 	Warm bool `json:"warm,omitempty"`
+	// Paced: the policy's pauses are milliseconds long, and the registry checks
+	// that no attempt arrives earlier than the pause the policy asked for
+	Paced bool `json:"paced,omitempty"`
+}
+
+// pacedPolicy remembers when the transport asked for the pause before the next
+// attempt, and how long it was to be.
+type pacedPolicy struct {
+	retry.Policy
+	mu   sync.Mutex
+	at   time.Time
+	wait time.Duration
+}
+
+func (p *pacedPolicy) Retry(attempt int, resp *http.Response, err error) (time.Duration, error) {
+	d, rerr := p.Policy.Retry(attempt, resp, err)
+	p.mu.Lock()
+	p.at, p.wait = time.Now(), 0
+	if rerr == nil && d > 0 {
+		p.wait = d
+	}
+	p.mu.Unlock()
+	return d, rerr
+}
+
+// early reports how much too early an attempt arrives now (0 = not early).
+func (p *pacedPolicy) early() (time.Duration, time.Duration) {
+	p.mu.Lock()
+	defer p.mu.Unlock()
+	if p.wait == 0 {
+		return 0, 0
+	}
+	w, el := p.wait, time.Since(p.at)
+	p.wait = 0
+	if el < w {
+		return w - el, w
+	}
+	return 0, w
 }
 
 // "temperr": a net.Error that is Temporary() but not Timeout() (e.g. a DNS SERVFAIL):
@@ -155,6 +193,7 @@ func genStack(t *rapid.T) StackCase {
 	c.Undeclared = !c.Unknown && rapid.IntRange(0, 3).Draw(t, "undeclared") == 0
 	c.MaxRetry = rapid.IntRange(0, 6).Draw(t, "maxRetry")
 	c.Layer = rapid.SampledFrom([]string{"auth+retry", "auth+retry", "retry", "auth"}).Draw(t, "layer")
+	c.Paced = c.Layer != "auth" && rapid.IntRange(0, 15).Draw(t, "paced") == 7
 	if c.Layer != "retry" && rapid.Bool().Draw(t, "warm") {
 		c.Warm = true
 		if rapid.Bool().Draw(t, "staleToken") {
@@ -210,6 +249,8 @@ type server struct {
 	partial  []bool
 	attempts []attempt
 	onAnswer func(i int, sym string)
+	paced    *pacedPolicy
+	tooEarly string
 	warm     bool // warm-up phase: challenge anonymous requests, accept the rest, record nothing
 }
 
@@ -221,6 +262,11 @@ func (s *server) RoundTrip(req *http.Request) (*http.Response, error) {
 			Body: io.NopCloser(strings.NewReader(`{"token":"tok"}`)), ContentLength: 15, Request: req}, nil
 	}
 	s.mu.Lock()
+	if s.paced != nil && !s.warm {
+		if short, want := s.paced.early(); short > 0 && s.tooEarly == "" {
+			s.tooEarly = fmt.Sprintf("attempt %d arrived %v before the end of the %v pause the policy had asked for", len(s.attempts), short, want)
+		}
+	}
 	if s.warm {
 		s.mu.Unlock()
 		h, st := http.Header{}, 200
@@ -329,6 +375,13 @@ func runStackInner(c StackCase) (res vt.Result, fail *vt.Fail) {
 	if c.Layer != "auth" {
 		rt := retry.NewTransport(srv)
 		rt.Policy = func() retry.Policy { return policy }
+		if c.Paced {
+			policy.Backoff = func(int, *http.Response) time.Duration { return 1500 * time.Microsecond }
+			policy.MinWait, policy.MaxWait = time.Millisecond, 2*time.Millisecond
+			pp := &pacedPolicy{Policy: policy}
+			srv.paced = pp
+			rt.Policy = func() retry.Policy { return pp }
+		}
 		tr = rt
 	}
 	marker := &sendMarker{base: tr}
@@ -400,7 +453,11 @@ func runStackInner(c StackCase) (res vt.Result, fail *vt.Fail) {
 	}
 	srv.mu.Lock()
 	atts := append([]attempt(nil), srv.attempts...)
+	tooEarly := srv.tooEarly
 	srv.mu.Unlock()
+	if tooEarly != "" {
+		return res, vt.Failf("C17/attempt-before-end-of-pause", "%s (script %v)", tooEarly, c.Script)
+	}
 	res.NonTrivial = len(atts) >= 2 && hasBody && c.Size > 0
 	res.Classes = []string{"layer-" + c.Layer, "body-" + c.BodyKind}
 	if c.Warm {
